@@ -158,20 +158,25 @@ Definition digit_val (c : N) : option N :=
   else if (65 <=? c) && (c <=? 90) then Some (c - 55)
   else None.
 
-(* digits with single underscores between them; returns value and the rest.
+(* digits with single underscores between them; returns value, number of digit
+   characters and the rest.
    [prev_us]: the previous character was '_' ; [seen]: at least one digit read *)
-Fixpoint int_digits (base : N) (s : str) (acc : N) (prev_us seen : bool) : option (N * str) :=
+Fixpoint int_digits (base : N) (s : str) (acc nd : N) (prev_us seen : bool) : option (N * N * str) :=
   match s with
-  | [] => if prev_us || negb seen then None else Some (acc, [])
+  | [] => if prev_us || negb seen then None else Some (acc, nd, [])
   | c :: r =>
       if c =? 95 then
-        if prev_us || negb seen then None else int_digits base r acc true seen
+        if prev_us || negb seen then None else int_digits base r acc nd true seen
       else match digit_val c with
-           | Some d => if d <? base then int_digits base r (acc * base + d) false true
-                       else if prev_us || negb seen then None else Some (acc, s)
-           | None => if prev_us || negb seen then None else Some (acc, s)
+           | Some d => if d <? base then int_digits base r (acc * base + d) (nd + 1) false true
+                       else if prev_us || negb seen then None else Some (acc, nd, s)
+           | None => if prev_us || negb seen then None else Some (acc, nd, s)
            end
   end.
+
+(* sys.int_info.default_max_str_digits: int() of more than 4300 digit characters in a
+   base that is not a power of two raises ValueError *)
+Definition max_str_digits : N := 4300.
 
 Definition py_int_ascii (base : N) (s : str) : option Z :=
   let s := int_lstrip s in
@@ -187,11 +192,12 @@ Definition py_int_ascii (base : N) (s : str) : option Z :=
                else s
            | _ => s
            end in
-  match int_digits base s 0 false false with
+  match int_digits base s 0 0 false false with
   | None => None
-  | Some (v, rest) =>
+  | Some (v, nd, rest) =>
       match int_lstrip rest with
-      | [] => Some (if neg then (- Z.of_N v)%Z else Z.of_N v)
+      | [] => if (base =? 10) && (max_str_digits <? nd) then None
+              else Some (if neg then (- Z.of_N v)%Z else Z.of_N v)
       | _ => None
       end
   end.
